@@ -4141,3 +4141,12 @@ B("C17-new-database-stamped-v2", "C17", "C17:R-C17.14:db::Database::create_new:n
 E("EQ-C17-version-table-into", _VER,
   """        writer.write_u8(u8::from(self))?;""", """        let byte: u8 = self.into();
         writer.write_u8(byte)?;""", props=["C17", "C09"])
+
+# F06 refreshed after repair 42 (the wait loop now looks at try_send's answer)
+_override("F06-C17-drop-blocking-send", [(DB,
+  """                .try_send(WorkerMessage::Close)
+                .is_err()
+            {""",
+  """                .send(WorkerMessage::Close)
+                .is_err()
+            {""")])
